@@ -156,4 +156,11 @@ example : Bxh.Chain.Linked {} ∧ Bxh.Chain.MetaOk {} ∧ Bxh.Chain.FiveEven {} 
     Bxh.Chain.FreshHash {} (Bxh.Chain.mkBlk {} ["t1"] []).hash :=
   ⟨Bxh.Chain.Linked.init, rfl, ⟨rfl, rfl, rfl, rfl, rfl⟩, fun c hc => by cases hc⟩
 
+/-- an empty block above height 1 is an idle block: its state part changes no storage row and flushes no account (its journal — the
+durable copy of the state root the next block chains on from — is what recovery needs of it; the store engine persists such blocks and
+crashes while they are being committed) -/
+theorem C11_idle_block_changes_no_account (l : Bxh.Ledger.L) (h serial : Nat) (hh : 1 < h) (hno : l.accounts = []) :
+    (Bxh.Chain.stateCommit l h serial []).db.state = l.db.state :=
+  (Bxh.Chain.stateCommit_idle l h serial hh hno).1
+
 end Bxh.Props.C11
